@@ -28,6 +28,7 @@ RULE = ('cases = G-PIT / G-MPS (per-layer, per-channel with 0 bit) / G-SN progra
         'trips (a quarter of the quick cases, all thorough cases).  Non-trivial: k >= 1 or the '
         'architectural parameters were moved away from their initial values; distinct = hash of '
         'the configuration.')
+RULE += ('  Round 2: in half of the cases the architecture is logged (summary / str / get_cost / export) between the last forward and the checkpoint.')
 ASSUMPTIONS = [
     'constructor arguments and option calls are configuration and are re-applied through the '
     'public API; only what state_dict claims to carry is expected to survive',
